@@ -152,11 +152,17 @@ pub fn gen(rng: &mut ChaCha20Rng, n: usize, thorough: bool) -> Vec<Case> {
         let mut tags = vec!["src:structured".to_string()];
         let (ty, b): (&str, Vec<u8>) = match k % 10 {
             0..=4 => { let t = rtx(rng, f, &mut tags); let r = ref_tx(&t); if tx_is_canonical(&t) { valid.push(("tx".to_string(), r.clone())); out.push(mk_ref("tx", &r, tags)); continue; } ("tx", r) }
-            5 => ("txin", serialize(&rtxin(rng, f, &mut tags))),
-            6 => ("txout", serialize(&rtxout(rng, f, &mut tags))),
-            7 => ("header", serialize(&rheader(rng, &mut tags))),
-            8 => { let txs: Vec<Transaction> = (0..rng.gen_range(0..3)).map(|_| rtx(rng, Feat { big: false, no_witness: false }, &mut tags)).collect(); ("block", serialize(&Block { header: rheader(rng, &mut tags), txdata: txs })) }
-            _ => match rng.gen_range(0..4) { 0 => ("params", serialize(&rparams(rng, &mut tags))), 1 => ("value", serialize(&rvalue(rng, true))), 2 => ("asset", serialize(&rasset(rng, true))), _ => ("nonce", serialize(&rnonce(rng))) },
+            // every structured case is the REFERENCE encoding (txgen::ref_*, independent of the crate's encoder) of a canonical value: must be accepted
+            5 => { let i = rtxin(rng, f, &mut tags); let mut r = Vec::new(); ref_txin(&mut r, &i); let t1 = Transaction { version: 2, lock_time: elements::LockTime::ZERO, input: vec![i], output: vec![] };
+                   if tx_is_canonical(&t1) { valid.push(("txin".to_string(), r.clone())); out.push(mk_ref("txin", &r, tags)); continue; } ("txin", r) }
+            6 => { let o = rtxout(rng, f, &mut tags); let mut r = Vec::new(); ref_txout(&mut r, &o); valid.push(("txout".to_string(), r.clone())); out.push(mk_ref("txout", &r, tags)); continue; }
+            7 => { let r = ref_header_vec(&rheader(rng, &mut tags)); valid.push(("header".to_string(), r.clone())); out.push(mk_ref("header", &r, tags)); continue; }
+            8 => { let txs: Vec<Transaction> = (0..rng.gen_range(0..3)).map(|_| rtx(rng, Feat { big: false, no_witness: false }, &mut tags)).collect();
+                   let canon = txs.iter().all(tx_is_canonical); let r = ref_block(&Block { header: rheader(rng, &mut tags), txdata: txs });
+                   if canon { valid.push(("block".to_string(), r.clone())); out.push(mk_ref("block", &r, tags)); continue; } ("block", r) }
+            _ => { let mut r = Vec::new();
+                   let ty = match rng.gen_range(0..4) { 0 => { ref_params(&mut r, &rparams(rng, &mut tags)); "params" }, 1 => { ref_value(&mut r, &rvalue(rng, true)); "value" }, 2 => { ref_asset(&mut r, &rasset(rng, true)); "asset" }, _ => { ref_nonce(&mut r, &rnonce(rng)); "nonce" } };
+                   valid.push((ty.to_string(), r.clone())); out.push(mk_ref(ty, &r, tags)); continue; }
         };
         valid.push((ty.to_string(), b.clone()));
         out.push(mk(ty, &b, tags, true));
